@@ -41,6 +41,28 @@ class _Rand:
 random = _Rand()
 
 
+def _union_dom(vals):
+    out = set()
+    for v in vals:
+        if isinstance(v, SInt):
+            if v.dom is None:
+                return None
+            out |= v.dom
+        elif isinstance(v, int) and not isinstance(v, bool):
+            out.add(v)
+        else:
+            return None
+    return out
+
+
+def _with_dom(r, vals):
+    if isinstance(r, SInt):
+        d = _union_dom(vals)
+        if d is not None:
+            r.dom = frozenset(d)
+    return r
+
+
 def _bounds(v):
     if isinstance(v, SInt):
         return v.lo, v.hi
@@ -133,7 +155,7 @@ class Arr:
         elif isinstance(i, SInt):
             n = len(self.data)
             symx.CTX.oob.append(z3.Or(i.e < 0, i.e >= n))
-            for k in range(n):
+            for k in (sorted(x for x in i.dom if 0 <= x < n) if i.dom is not None else range(n)):
                 c = mkbool(i.e == k)
                 if c is True:
                     self.data[k] = v
@@ -210,10 +232,78 @@ def array(x, dtype=None):
 asarray = array
 
 
+class SparseZeros(Arr):
+    """np.zeros(n) for large n: only touched cells are stored (every other cell is the concrete 0)"""
+
+    def __init__(self, n, dtype=None):
+        self.n = n
+        self.cells = {}
+        self.dtype = dtype
+
+    def __len__(self):
+        return self.n
+
+    @property
+    def size(self):
+        return self.n
+
+    @property
+    def shape(self):
+        return (self.n,)
+
+    @property
+    def data(self):
+        raise ShimUnsupported('dense view of a large sparse array')
+
+    def _keys(self, i):
+        if i.dom is None:
+            raise ShimUnsupported('symbolic index without a finite domain into a large array')
+        return sorted(k for k in i.dom if 0 <= k < self.n)
+
+    def __getitem__(self, i):
+        if isinstance(i, tuple) and len(i) == 1:
+            i = i[0]
+        if isinstance(i, Arr):
+            return Arr([self[j] for j in i.data], self.dtype)
+        if isinstance(i, SInt):
+            symx.CTX.oob.append(z3.Or(i.e < 0, i.e >= self.n))
+            ks = self._keys(i)
+            vs = [self.cells.get(k, 0) for k in ks]
+            e = zint(vs[-1])
+            for k, v in list(zip(ks, vs))[-2::-1]:
+                e = z3.If(i.e == k, zint(v), e)
+            return SInt.mk(e, builtins.min(_bounds(v)[0] for v in vs), builtins.max(_bounds(v)[1] for v in vs))
+        i = i.__index__()
+        if not -self.n <= i < self.n:
+            raise IndexError('index out of bounds')
+        return self.cells.get(i % self.n, 0)
+
+    def __setitem__(self, i, v):
+        if isinstance(i, SInt):
+            symx.CTX.oob.append(z3.Or(i.e < 0, i.e >= self.n))
+            for k in self._keys(i):
+                c = mkbool(i.e == k)
+                if c is True:
+                    self.cells[k] = v
+                elif c is not False:
+                    self.cells[k] = symx.ite(c, v, self.cells.get(k, 0))
+            return
+        i = i.__index__()
+        if not -self.n <= i < self.n:
+            raise IndexError('index out of bounds')
+        self.cells[i % self.n] = v
+
+    def touched(self):
+        return sorted(self.cells.items())
+
+
 def zeros(n, dtype=None):
     if isinstance(n, tuple):
         raise ShimUnsupported('2-D zeros')
-    return Arr([0] * int(n), dtype)
+    n = int(n)
+    if n > 4096:
+        return SparseZeros(n, dtype)
+    return Arr([0] * n, dtype)
 
 
 def empty(n, dtype=None):
@@ -230,11 +320,50 @@ def max(a):
     for v in vals[1:]:
         ve = zint(v)
         e = z3.If(ve > e, ve, e)
-    return SInt.mk(e, builtins.max(_bounds(v)[0] for v in vals), builtins.max(_bounds(v)[1] for v in vals))
+    return _with_dom(SInt.mk(e, builtins.max(_bounds(v)[0] for v in vals), builtins.max(_bounds(v)[1] for v in vals)), vals)
+
+
+def min(a):
+    vals = a.data
+    if not vals:
+        raise ValueError('zero-size array to reduction operation minimum which has no identity')
+    if builtins.all(isinstance(v, (int, float)) and not isinstance(v, bool) for v in vals):
+        return builtins.min(vals)
+    e = zint(vals[0])
+    for v in vals[1:]:
+        ve = zint(v)
+        e = z3.If(ve < e, ve, e)
+    return _with_dom(SInt.mk(e, builtins.min(_bounds(v)[0] for v in vals), builtins.min(_bounds(v)[1] for v in vals)), vals)
+
+
+def argsort(a, kind=None, **kw):
+    """stable argsort; comparisons on symbolic values fork"""
+    idx = list(range(len(a.data)))
+    for i in range(1, len(idx)):
+        j = i
+        while j > 0 and (a.data[idx[j]] < a.data[idx[j - 1]]):
+            idx[j], idx[j - 1] = idx[j - 1], idx[j]
+            j -= 1
+    return Arr(idx, 'int')
+
+
+def sort(a, **kw):
+    return a[argsort(a)]
+
+
+def fromiter(it, dtype=None, count=-1):
+    return Arr(list(it), dtype)
+
+
+def partition(a, kth, **kw):
+    # any arrangement with the kth element in sorted position is allowed by numpy; the fully sorted one is such an arrangement
+    return sort(a)
 
 
 def nonzero(a):
-    return (Arr([i for i, v in enumerate(a.data) if (v != 0)], 'int'),)
+    if isinstance(a, SparseZeros):
+        return (Arr([i for i, v in a.touched() if (v != 0)], 'int'),)
+    return (Arr([i for i, v in enumerate(a.data) if ((v != 0) if not isinstance(v, int) else v != 0)], 'int'),)
 
 
 def where(c):
